@@ -36,6 +36,10 @@ pub fn sep_text(cls: &str) -> &'static str {
         "lc" => "//c",
         "lc4" => "////x",
         "ws3" => "\u{3000}",
+        "bc2" => "/* x **/",
+        "bc3" => "/***/",
+        "ppskip" => "\n#if NOPE\nstruct Hidden {}\n#endif\n",
+        "ppdef" => "\n#define ZED\n",
         _ => " ",
     }
 }
